@@ -450,7 +450,7 @@ m('cd_sk_deserialize_skips_zero_check', 'harmful', 'C12', SK,
   '        Self::from_scalar(SerializableScalar::deserialize(bytes)?.0)', '        Ok(Self { scalar: SerializableScalar::deserialize(bytes)?.0 })', 'SigningKey::deserialize accepts the zero key')
 m('cd_sk_deserialize_other_error_value', 'benign', 'C12', SK,
   '        Self::from_scalar(SerializableScalar::deserialize(bytes)?.0)',
-  '        match SerializableScalar::deserialize(bytes) {\n            Ok(s) => Self::from_scalar(s.0),\n            Err(_) => Err(Error::MalformedSigningKey),\n        }',
+  '        match SerializableScalar::<C>::deserialize(bytes) {\n            Ok(s) => Self::from_scalar(s.0),\n            Err(_) => Err(Error::MalformedSigningKey),\n        }',
   'every undecodable key string reported as MalformedSigningKey')
 m('cd_sk_deserialize_other_value', 'harmful', 'C12', SK,
   '        Self::from_scalar(SerializableScalar::deserialize(bytes)?.0)', '        Self::from_scalar(SerializableScalar::deserialize(bytes)?.0 + <<C::Group as Group>::Field as Field>::one())', 'decoded key is off by one')
@@ -471,7 +471,7 @@ m('cd_id_derive_other_value', 'harmful', 'C12', IDF,
   'derive returns twice the hash')
 m('cd_id_deserialize_other_error_value', 'benign', 'C12', IDF,
   '        Self::new(SerializableScalar::deserialize(bytes)?.0)',
-  '        match SerializableScalar::deserialize(bytes) {\n            Ok(s) => Self::new(s.0),\n            Err(_) => Err(Error::MalformedIdentifier),\n        }',
+  '        match SerializableScalar::<C>::deserialize(bytes) {\n            Ok(s) => Self::new(s.0),\n            Err(_) => Err(Error::MalformedIdentifier),\n        }',
   'every undecodable identifier string reported as MalformedIdentifier')
 m('cd_id_deserialize_skips_zero_check', 'harmful', 'C12', IDF,
   '        Self::new(SerializableScalar::deserialize(bytes)?.0)', '        Ok(Self(SerializableScalar::deserialize(bytes)?))', 'Identifier::deserialize accepts zero')
@@ -494,8 +494,8 @@ m('cd_sigser_other_error_value', 'benign', 'C12', SIG,
   'identity R refused with another error value')
 m('cd_sigser_z_then_R', 'harmful', 'C12', SIG,
   '        bytes.extend(R_bytes);\n        bytes.extend(z_bytes);', '        bytes.extend(z_bytes);\n        bytes.extend(R_bytes);', 'signature encoded as z || R')
-m('cd_sigser_R_twice', 'harmful', 'C12', SIG,
-  '        bytes.extend(R_bytes);\n        bytes.extend(z_bytes);', '        bytes.extend(R_bytes);\n        bytes.extend(R_bytes);', 'signature encoded as R || R')
+m('cd_sigser_other_z', 'harmful', 'C12', SIG,
+  '        let z_serialization = <<C::Group as Group>::Field>::serialize(&self.z);\n\n        let R_bytes', '        let z_serialization = <<C::Group as Group>::Field>::serialize(&(self.z + self.z));\n\n        let R_bytes', 'signature encoded with twice the response')
 m('cd_vss_whole_other_error_value', 'benign', 'C12', K,
   '            return Err(Error::InvalidCoefficient);', '            return Err(Error::IncorrectNumberOfCommitments);', 'trailing bytes refused with another error value')
 m('cd_vss_whole_remainder_ignored', 'harmful', 'C12', K,
@@ -504,7 +504,7 @@ m('cd_vss_whole_check_inverted', 'harmful', 'C12', K,
   '        if !serialized_coefficient_commitments.remainder().is_empty() {', '        if serialized_coefficient_commitments.remainder().is_empty() {', 'only strings WITH trailing bytes accepted')
 m('cd_share_other_error_value', 'benign', 'C12', K,
   '        Ok(Self(SerializableScalar::deserialize(bytes)?))\n    }\n\n    /// Serialize to bytes\n    pub fn serialize(&self) -> Vec<u8> {\n        self.0.serialize()\n    }\n\n    /// Computes the signing share from a list of coefficients.',
-  '        match SerializableScalar::deserialize(bytes) {\n            Ok(s) => Ok(Self(s)),\n            Err(_) => Err(Error::MalformedSigningKey),\n        }\n    }\n\n    /// Serialize to bytes\n    pub fn serialize(&self) -> Vec<u8> {\n        self.0.serialize()\n    }\n\n    /// Computes the signing share from a list of coefficients.',
+  '        match SerializableScalar::<C>::deserialize(bytes) {\n            Ok(s) => Ok(Self(s)),\n            Err(_) => Err(Error::MalformedSigningKey),\n        }\n    }\n\n    /// Serialize to bytes\n    pub fn serialize(&self) -> Vec<u8> {\n        self.0.serialize()\n    }\n\n    /// Computes the signing share from a list of coefficients.',
   'every undecodable share string reported as MalformedSigningKey')
 m('cd_share_other_value', 'harmful', 'C12', K,
   '        Ok(Self(SerializableScalar::deserialize(bytes)?))\n    }\n\n    /// Serialize to bytes\n    pub fn serialize(&self) -> Vec<u8> {\n        self.0.serialize()\n    }\n\n    /// Computes the signing share from a list of coefficients.',
@@ -512,17 +512,17 @@ m('cd_share_other_value', 'harmful', 'C12', K,
   'decoded share is off by one')
 m('cd_share_garbage_accepted', 'harmful', 'C12', K,
   '        Ok(Self(SerializableScalar::deserialize(bytes)?))\n    }\n\n    /// Serialize to bytes\n    pub fn serialize(&self) -> Vec<u8> {\n        self.0.serialize()\n    }\n\n    /// Computes the signing share from a list of coefficients.',
-  '        match SerializableScalar::deserialize(bytes) {\n            Ok(s) => Ok(Self(s)),\n            Err(_) => Ok(Self(SerializableScalar(<<C::Group as Group>::Field>::one()))),\n        }\n    }\n\n    /// Serialize to bytes\n    pub fn serialize(&self) -> Vec<u8> {\n        self.0.serialize()\n    }\n\n    /// Computes the signing share from a list of coefficients.',
+  '        match SerializableScalar::<C>::deserialize(bytes) {\n            Ok(s) => Ok(Self(s)),\n            Err(_) => Ok(Self(SerializableScalar(<<C::Group as Group>::Field>::one()))),\n        }\n    }\n\n    /// Serialize to bytes\n    pub fn serialize(&self) -> Vec<u8> {\n        self.0.serialize()\n    }\n\n    /// Computes the signing share from a list of coefficients.',
   'undecodable strings decode to 1')
 m('cd_vk_other_error_value', 'benign', 'C12', VK,
   '        Ok(Self::new(SerializableElement::deserialize(bytes)?.0))',
-  '        match SerializableElement::deserialize(bytes) {\n            Ok(e) => Ok(Self::new(e.0)),\n            Err(_) => Err(Error::MalformedVerifyingKey),\n        }',
+  '        match SerializableElement::<C>::deserialize(bytes) {\n            Ok(e) => Ok(Self::new(e.0)),\n            Err(_) => Err(Error::MalformedVerifyingKey),\n        }',
   'every undecodable key string reported as MalformedVerifyingKey')
 m('cd_vk_other_value', 'harmful', 'C12', VK,
   '        Ok(Self::new(SerializableElement::deserialize(bytes)?.0))', '        Ok(Self::new(SerializableElement::deserialize(bytes)?.0 + <C::Group>::generator()))', 'decoded key shifted by G')
 m('cd_vk_garbage_accepted', 'harmful', 'C12', VK,
   '        Ok(Self::new(SerializableElement::deserialize(bytes)?.0))',
-  '        match SerializableElement::deserialize(bytes) {\n            Ok(e) => Ok(Self::new(e.0)),\n            Err(_) => Ok(Self::new(<C::Group>::generator())),\n        }',
+  '        match SerializableElement::<C>::deserialize(bytes) {\n            Ok(e) => Ok(Self::new(e.0)),\n            Err(_) => Ok(Self::new(<C::Group>::generator())),\n        }',
   'undecodable strings decode to G')
 m('cd_scalar_other_value', 'harmful', 'C12', SER,
   '        let scalar = <<C::Group as Group>::Field>::deserialize(&serialized)?;\n        Ok(Self(scalar))', '        let scalar = <<C::Group as Group>::Field>::deserialize(&serialized)?;\n        Ok(Self(scalar + scalar))',
@@ -566,7 +566,7 @@ m('bt_item_challenge_for_other_key', 'harmful', 'C19', B,
   '        let c = <C>::challenge(&sig.R, &vk, &msg)?;\n\n        Ok(Self {', '        let c = <C>::challenge(&sig.R, &VerifyingKey::new(sig.R), &msg)?;\n\n        Ok(Self {',
   'challenge computed for the key R')
 m('bt_item_keeps_other_signature', 'harmful', 'C19', B,
-  '            vk: *vk,\n            sig: *sig,\n            c,', '            vk: *vk,\n            sig: Signature::new(sig.R, sig.z + sig.z),\n            c,', 'item stores a different response')
+  '            vk: *vk,\n            sig: *sig,\n            c,', '            vk: *vk,\n            sig: Signature { R: sig.R, z: sig.z + sig.z },\n            c,', 'item stores a different response')
 
 # keys.rs :: generate_secret_polynomial (internal helper with two refusals in a row)
 m('gsp_guards_exchanged', 'benign', 'C06', K,
